@@ -52,6 +52,78 @@ def resolve (specs : List Spec) : P :=
 /-- `init_processing_pipeline`: backend pipeline, then the user's, then the output format's -/
 def initPipeline (backend user fmt : P) : P := (backend.add user).add fmt
 
+/-! ## The code-shaped choices as parameters (tied to the source by `Gen/Compose.lean`, `Oblig/C14.lean`)
+
+`P.add`, `Spec.le`, `resolve` and `initPipeline` above bake in what the code does today.  The
+definitions below take those choices as data, so that the translator can regenerate the data from the
+source and the obligations can state that the parametrised definitions, at the generated values, are
+the ones the theorems are about. -/
+
+/-- what `ProcessingPipeline.__add__` does per constructor argument: for the three lists whether the
+left operand's list comes first, for `vars` whether the right operand wins on a common key -/
+structure AddShape where
+  itemsSelfFirst : Bool
+  postSelfFirst : Bool
+  finsSelfFirst : Bool
+  varsOtherWins : Bool
+deriving Repr, DecidableEq
+
+/-- the shape the model `P.add` implements -/
+def AddShape.std : AddShape := ⟨true, true, true, true⟩
+
+def P.addBy (sh : AddShape) (a b : P) : P :=
+  ⟨bif sh.itemsSelfFirst then a.items ++ b.items else b.items ++ a.items,
+   bif sh.postSelfFirst then a.post ++ b.post else b.post ++ a.post,
+   bif sh.finsSelfFirst then a.fins ++ b.fins else b.fins ++ a.fins,
+   bif sh.varsOtherWins then a.vars ++ b.vars else b.vars ++ a.vars⟩
+
+/-- a component of the resolver's sort key: the pipeline's `priority`, or the specifier string the
+pipeline was requested under -/
+inductive KeyComp
+  | priority | spec
+deriving Repr, DecidableEq
+
+def KeyComp.get : KeyComp → Spec → Nat
+  | .priority, s => s.priority
+  | .spec, s => s.name
+
+/-- lexicographic comparison of the key tuples (Python tuple comparison) -/
+def keyLe : List KeyComp → Spec → Spec → Bool
+  | [], _, _ => true
+  | k :: ks, a, b => k.get a < k.get b || (k.get a == k.get b && keyLe ks a b)
+
+def insertSortedBy (le : Spec → Spec → Bool) (x : Spec) : List Spec → List Spec
+  | [] => [x]
+  | y :: ys => if !le x y then y :: insertSortedBy le x ys else x :: y :: ys
+
+/-- stable insertion sort with an arbitrary comparison -/
+def sortSpecsBy (le : Spec → Spec → Bool) : List Spec → List Spec
+  | [] => []
+  | x :: xs => insertSortedBy le x (sortSpecsBy le xs)
+
+/-- the resolver with the sort key as a parameter -/
+def resolveBy (ks : List KeyComp) (specs : List Spec) : P :=
+  (sortSpecsBy (keyLe ks) specs).foldl (fun acc s => acc.add s.pipe) P.empty
+
+/-- the key the model `Spec.le` / `resolve` implements -/
+def stdKey : List KeyComp := [.priority, .spec]
+
+/-- the three pipelines a backend combines -/
+inductive Slot
+  | backend | user | format
+deriving Repr, DecidableEq
+
+def Slot.pick (b u f : P) : Slot → P
+  | .backend => b
+  | .user => u
+  | .format => f
+
+/-- `init_processing_pipeline` with the order of the operands of `+` as a parameter -/
+def initPipelineBy (order : List Slot) (b u f : P) : P :=
+  order.foldl (fun acc s => acc.add (s.pick b u f)) P.empty
+
+def stdInitOrder : List Slot := [.backend, .user, .format]
+
 /-! ## Stage order of one conversion -/
 
 inductive Ev
